@@ -69,6 +69,7 @@ class StepMonitor:
         self.total = 0
         self.max_pc = 0
         self.lock = threading.Lock()
+        self.arm(256)           # never without a budget
         try:
             self.mon.use_tool_id(self.TOOL, 'vf-c18')
         except ValueError:
@@ -198,7 +199,7 @@ class _NoSteps:
 class Delivery:
     __slots__ = ('escaped', 'hangs', 't0', 't1', 'raw', 'inv', 'errs',
                  'canary_ok', 'canary_tries', 'steps', 'recv_port', 'sender',
-                 'clock_step', 'send_error', 'traced')
+                 'clock_step', 'send_error', 'traced', 'pred')
 
     def witness(self):
         return {'escaped': self.escaped, 'hangs': self.hangs,
@@ -217,6 +218,8 @@ class Rig:
         self.inv = collections.deque()
         self.raw = collections.deque()
         self.errs = collections.deque()
+        self.pred = collections.deque()   # (rid, position, name, value): template
+                                          # predicate evaluations (c18_hist)
         self.on_invoke = None
         self.canary_ev = threading.Event()
         self.canary_seq = 0
@@ -350,6 +353,56 @@ class Rig:
             return self.itf
         return self.extra[port]
 
+    # ---- contended ports (a port another program holds) -------------------
+    def block_port(self):
+        """Binds a UDP socket of the harness ('another program') to a free
+        port of the address the library binds its receive ports to
+        -> (port, socket)."""
+        s = socket.socket(socket.AF_INET, socket.SOCK_DGRAM)
+        s.bind((socket.gethostbyname('localhost'), 0))
+        return s.getsockname()[1], s
+
+    def adopt_port(self, port):
+        """The library opened `port` itself (OscFunc(..., recv_port=port)):
+        -> its interface, also known to interface() from now on."""
+        itf = self.osci.OscInterface._local_endpoints.get(
+            (socket.gethostbyname('localhost'), port))
+        if not isinstance(itf, self.osci.OscUdpInterface):
+            return None         # (a TCP connection of the library has that port)
+        self.extra[port] = itf
+        return itf
+
+    def probe_port(self, port):
+        """Does a datagram sent to `port` over loop-back UDP reach the receive
+        functions?  (canary; three tries with growing patience)"""
+        itf = self.extra.get(port)
+        if itf is None:
+            return None
+        self.udp_client()
+        for timeout in (1.0, 3.0, 15.0):
+            # (the canary is parsed by the port's receive thread: give the
+            # parser step monitor a budget for it - over UDP _canary() relies
+            # on the one of the datagram under test, and there is none here)
+            self.mon.arm(256)
+            if self._canary(True, timeout, itf):
+                return True
+        return False
+
+    def close_port(self, port):
+        """Closes an extra port through the public API (waits for the receive
+        thread to be running first: stop() of a not yet running interface does
+        nothing) -> closed?"""
+        itf = self.extra.pop(port, None)
+        if itf is None:
+            return False
+        end = time.monotonic() + 2.0
+        while not itf.running() and time.monotonic() < end:
+            time.sleep(0.0002)
+        self.main.close_udp_port(port)
+        ok = (socket.gethostbyname('localhost'), port) not in \
+            self.osci.OscInterface._local_endpoints
+        return ok
+
     def udp_client(self):
         if self.sock is None:
             self.sock = socket.socket(socket.AF_INET, socket.SOCK_DGRAM)
@@ -357,7 +410,8 @@ class Rig:
         return self.sock.getsockname()
 
     # ---- delivery ------------------------------------------------------
-    def _canary(self, udp, timeout):
+    def _canary(self, udp, timeout, itf=None):
+        itf = itf or self.itf
         self.canary_seq += 1
         self.canary_ev.clear()
         d = osc.enc_msg(CANARY, self.canary_seq)
@@ -366,7 +420,8 @@ class Rig:
             # under test: its budget stays armed and also covers the canary)
             self.mon.arm(len(d))
         if udp:
-            self.sock.sendto(d, ('127.0.0.1', self.itf.port))
+            # same socket as the datagram under test: one socket is FIFO
+            self.sock.sendto(d, ('127.0.0.1', itf.port))
         else:
             self.itf._handle_request(d, ('127.0.0.1', 9))
         return self.canary_ev.wait(timeout)
@@ -375,6 +430,7 @@ class Rig:
         """One datagram through the receive path, then a canary; returns after
         the canary was dispatched (=> everything scheduled before it ran)."""
         self.inv.clear(); self.raw.clear(); self.errs.clear(); self.traced.clear()
+        self.pred.clear()
         nh = len(self.mon.hangs)
         r = Delivery()
         r.sender = tuple(sender)
@@ -399,13 +455,13 @@ class Rig:
                              'sites': tb_sites(e)}
             r.steps = self.mon.harvest()
         r.t1 = self.main.elapsed_time()
-        ok = self._canary(udp, 10.0)
+        ok = self._canary(udp, 10.0, itf)
         tries = 1
         while not ok and tries < 4:
             # (a canary is lost legitimately when a callback ran
             # CmdPeriod.run(), which clears the SystemClock queue; the last,
             # long wait separates a starved host from a dead receiver)
-            ok = self._canary(udp, 3.0 if tries < 3 else 30.0)
+            ok = self._canary(udp, 3.0 if tries < 3 else 30.0, itf)
             tries += 1
         if udp:
             r.t1 = self.main.elapsed_time()
@@ -420,6 +476,7 @@ class Rig:
         r.inv = list(self.inv)
         r.errs = list(self.errs)
         r.traced = list(self.traced)
+        r.pred = list(self.pred)
         return r
 
     # ---- helpers ---------------------------------------------------------
